@@ -202,3 +202,34 @@ class Step:
         except Returned as r:
             return r.v
         return None
+
+
+def inliner(fx, step, max_depth=4):
+    """A fallback for `step` that evaluates calls of in-repository free functions / methods with a body (unique by name and arity) by running the callee's body on the argument values
+    (value semantics; no write-back).  step.fallback = inliner(fx, step)."""
+    depth = [0]
+
+    def fb(t, env):
+        op = t[0]
+        if not isinstance(op, str) or depth[0] >= max_depth:
+            return NotImplemented
+        method = op.startswith('.')
+        name = op.lstrip('.').split('<')[0].split('::')[-1]
+        args = t[2:] if method else t[1:]
+        cands = [g for g in fx.functions.values() if g.get('body') is not None and g['name'] == name and len(g.get('params', [])) == len(args)]
+        if len({g['q'].split('<')[0] for g in cands}) != 1:
+            return NotImplemented
+        g = cands[0]
+        sub = Step(step.unwrap, index_vars=set(step.index_vars))
+        sub.hooks = dict(step.hooks)
+        sub.fallback = fb
+        e2 = {p_['name']: step.ev(a_, env) for p_, a_ in zip(g['params'], args)}
+        for k_, v_ in env.items():
+            if isinstance(k_, str) and k_.startswith('this.') and method:
+                e2.setdefault(k_, v_)
+        depth[0] += 1
+        try:
+            return sub.call(g['body'], e2)
+        finally:
+            depth[0] -= 1
+    return fb
